@@ -57,7 +57,16 @@ func runC16(t *testing.T, e *worlds.Env, tier string) (bool, any) {
 		// configuration
 		var cmds []string
 		enabled := map[byte]bool{}
-		switch tp.Weighted("cmds", 3, 2, 2, 1, 1, 1) {
+		switch tp.Weighted("cmds", 3, 2, 2, 1, 1, 1, 1, 1, 1) {
+		case 6:
+			cmds = []string{"connect"}
+			enabled[1] = true
+		case 7:
+			cmds = []string{"Associate"}
+			enabled[3] = true
+		case 8:
+			cmds = []string{"bind"}
+			enabled[2] = true
 		case 0: // default: CONNECT + ASSOCIATE
 			enabled[1], enabled[3] = true, true
 		case 1:
